@@ -1391,6 +1391,8 @@ func genC03(o *vcoq.Out, r *vcoq.Rand, tier string) error {
 			exploreAll(sc, 0, func(rr *runResult) { emitCase(o, sc, rr, []string{"exhaustive"}) })
 		}
 	}
+	// reader paces: receive some / pause / resume over two or three ids (pace.go)
+	genPaces(o, r, tier, base)
 	// a subscription opened while a Send is in flight (the publisher parked after it has copied the
 	// listener list) on a bus that still holds a cancelled listener: the new listener must survive
 	// the collection of the cancelled one and receive the next write
@@ -1451,7 +1453,7 @@ func genC03(o *vcoq.Out, r *vcoq.Rand, tier string) error {
 		nl := 0
 		for s := 0; s < ns; s++ {
 			if !value && r.Chance(50) {
-				sc.prog = append(sc.prog, lossySub(r.Chance(40), r.Intn(len(roVariants)), r.Intn(4)))
+				sc.prog = append(sc.prog, lossySub(r.Chance(40), r.Intn(len(roVariants)), r.Intn(7)))
 				nl++
 				continue
 			}
